@@ -3,7 +3,7 @@
 From Coq Require Extraction.
 From Coq Require Import ExtrOcamlBasic.
 From Spg.Base Require Import Prelude Utf8 Bytes.
-From Spg.Model Require Import Tables Rand GenM CharSets CharGen Token.
+From Spg.Model Require Import Tables Rand GenM CharSets CharGen Token WordList WordGen.
 
 Definition run_draw (n : N) (src : source) : outcome N * N :=
   run_src (Pick n (fun i => Ret (Done i))) src.
@@ -33,7 +33,16 @@ Definition roundtrip_report (ts : list token) : N * outcome (list N) * rt_result
             end in
   (k, mi, rt).
 
+Definition run_wlgen (tbl : list (bytes * bytes)) (b : budget) (r : wl_recipe) (src : source)
+  : outcome (list token * wl_entropy) * N :=
+  run_src (wl_generate (title_of tbl) b r) src.
+
+Definition run_new_word_list (tbl : list (bytes * bytes)) (emit : option (list bytes)) (l : list bytes) :=
+  new_word_list (title_of tbl) emit l.
+
 Extraction "model.ml"
   run_draw run_src explode
   run_chargen recipe_report char_entropy alphabet_string recipe_count sp_num sp_den char_generate_diag char_entropy_diag
-  mkCR mkBudget Z.of_N roundtrip_report tokenize Tok.
+  mkCR mkBudget Z.of_N roundtrip_report tokenize Tok
+  run_wlgen run_new_word_list wl_generate_diag cap_of_string mkWLR mkWL
+  SFNone SFDigits1 SFDigits2 SFDigitsNoAmbiguous1 SFDigitsNoAmbiguous2 SFSymbols SFDigitsSymbols.
